@@ -27,3 +27,19 @@ func reducerBroadcasted(y tensor.Tensor, x tensor.Tensor, dim int) (o tensor.Ten
 func lastDimUnSqueezed(t tensor.Tensor) (o tensor.Tensor, err error) {
 	return t.UnSqueeze(len(t.Shape()))
 }
+
+// patchedIndex is the block of the patch target that source p was written to:
+// an omitted or {0,0} range places p at offset 0 with p's own extent.
+func patchedIndex(index []tensor.Range, p tensor.Tensor) (pidx []tensor.Range) {
+	shape := p.Shape()
+	pidx = make([]tensor.Range, len(shape))
+	for i := range pidx {
+		if i >= len(index) || (index[i].From == 0 && index[i].To == 0) {
+			pidx[i] = tensor.Range{From: 0, To: shape[i]}
+		} else {
+			pidx[i] = index[i]
+		}
+	}
+
+	return pidx
+}
